@@ -230,13 +230,21 @@ func (d *Decoder) DecodeWithOption(v interface{}, optFuncs ...DecodeOptionFunc) 
 		return err
 	}
 	if err := d.s.PrepareForDecode(); err != nil {
+		if rerr := d.s.ReadErr(); rerr != nil {
+			return rerr
+		}
 		return err
 	}
 	s := d.s
 	for _, optFunc := range optFuncs {
 		optFunc(s.Option)
 	}
-	if err := dec.DecodeStream(s, 0, header.ptr); err != nil {
+	err = dec.DecodeStream(s, 0, header.ptr)
+	if rerr := s.ReadErr(); rerr != nil {
+		// the reader failed while this value was being read: the value may be cut short
+		return rerr
+	}
+	if err != nil {
 		return err
 	}
 	s.Reset()
